@@ -470,8 +470,12 @@ class Interp:
         val = op["val"]
         h = self.handle(da, op.get("how", "name")).dimensions[di]
         setattr(h, attr, val)
+        link = dims[di].get("link")
         if attr == "ticks":
             dims[di]["link"] = None
+        elif kind == "range" and attr in ("unit", "label") and link not in (None, "dangling"):
+            # a linked range dimension forwards unit/label to the linked array (C05)
+            link.attrs[attr] = val
         return True
 
     def op_force_ts(self, op):
